@@ -51,12 +51,37 @@ func dumpDom(n *html.Node, b *strings.Builder) {
 	}
 }
 
+var htmlReads int
+
+// failingReader delivers its data in two pieces and then fails with an error that is not io.EOF
+type failingReader struct {
+	data []byte
+	n    int
+}
+
+func (f *failingReader) Read(p []byte) (int, error) {
+	if f.n >= len(f.data) {
+		return 0, fmt.Errorf("read failed: connection reset")
+	}
+	k := copy(p, f.data[f.n:min(len(f.data), f.n+len(f.data)/2+1)])
+	f.n += k
+	return k, nil
+}
+
 func readHtmlImpl(data []byte) (out string) {
 	defer func() {
 		if r := recover(); r != nil {
 			out = fmt.Sprintf("PANIC %v", r)
 		}
 	}()
+	htmlReads++
+	if htmlReads%5 == 0 {
+		// an input that fails part-way with a non-EOF error: it must be reported, and leave nothing behind for the next document
+		c, err := xsel.ReadHtml(&failingReader{data: []byte(`<!DOCTYPE html><html class="stale"><head><title>lost</title></head><body><p id="lost">x`)})
+		if err == nil {
+			return fmt.Sprintf("ACCEPTED an input whose reader failed (cursor nil: %v)", c == nil)
+		}
+	}
 	c, err := xsel.ReadHtml(bytes.NewReader(data))
 	if err != nil {
 		return "E"
